@@ -225,9 +225,6 @@ theorem NSBetween_nins {N : Nodes} (h : NWF N) {name k : Name} (hn : LC name) (n
 
 /-! ## guards -/
 
-/-- some NS owner strictly below `name` -/
-def nsBelow (N : Nodes) (name : Name) : Bool := N.any (fun e => properSub e.1 name && hasNS e.2.rds)
-
 theorem nsBelow_false {N : Nodes} {name : Name} (h : nsBelow N name = false) :
     ∀ e ∈ N, properSub e.1 name = true → hasNS e.2.rds = false := by
   intro e he hp
